@@ -348,12 +348,15 @@ func (a *aofRun) crashInConc(phaseStart map[string]string, groups []concGroup, r
 			// the preamble a rewrite wrote cannot represent every value type (recorded finding): up to that
 			// projection the restore is what it has to be
 			sig = "retyped-by-preamble"
-		case a.rewriteCrashSite != "":
-			// an EARLIER rewrite of this history was interrupted inside the replacement of the two files and none has
-			// completed since: what is on disk is still what that crash left (recorded findings, by site)
-			sig = "rewrite-crash@" + a.rewriteCrashSite
-		case site != "":
-			sig = "rewrite-crash@" + site
+		case a.rewriteCrashSite != "" || site != "":
+			// this rewrite, or an EARLIER one of this history, was interrupted and none has completed since: what is
+			// on disk is what those crashes left (recorded findings, by site: the earliest site inside the
+			// replacement of the two files is blamed, as in the sequential profile)
+			sites := append([]string{}, a.crashSites...)
+			if site != "" {
+				sites = append(sites, site)
+			}
+			sig = "rewrite-crash@" + blameSite(sites)
 		}
 		a.fail(sig, fmt.Sprintf("kill in the middle of REWRITEAOF with concurrent writers (rewrite finished: %v, rewrite task at %q, earlier interrupted rewrite: %q): %s; restored vs live at the crash: %s", rewriteDone, site, a.rewriteCrashSite, problem, DiffData(got, StripMap(dead, now), "restored", "live", 5)))
 		return false
